@@ -19,6 +19,15 @@ _MC = ("TLC explores the bounded %s specification exhaustively (design check of 
        "real bio-rd objects with the complete projected state compared after each step")
 
 CHECKS = {
+    "C35": {
+        "text": "The SPT module defines distances by Bellman-Ford fixpoint; TLC checks the laws of that definition (source 0, finite iff "
+                "reachable, triangle inequality, realised by a predecessor, fixpoint) on every enumerated graph and emits graph + "
+                "expected distances; every case is run through the real Topology.SPT and distances, unreachable marks and the edge "
+                "lists (must be existing edges summing to the distance) are compared. All digraphs with self loops on 2 nodes "
+                "(weights 0..3) and 3 nodes (weights 0..1, thorough 0..2) x every source exhaustively, 4-7 nodes sampled.",
+        "note": "Trusted: TLC and the fixpoint definition; sampled (not exhaustive) beyond 3 nodes.",
+        "technique": "TLA+ spec SPT enumerated by TLC; per-case replay against util/dijkstra",
+    },
     "C29": {
         "text": _MC % "MergedRIB" + "; in addition seeded random histories of the real MergedLocRIB are logged and validated "
                 "against MergedRIBTrace by TLC.",
